@@ -15,6 +15,15 @@
 (* four/three-element envelope may have a minimal, a wide or an indefinite   *)
 (* array head.  Neither must matter.                                         *)
 (*                                                                           *)
+(* From Alonzo on the four-element envelope carries the is_valid flag        *)
+(* (false = the transaction's Plutus scripts fail; the block producer        *)
+(* includes it anyway and only its collateral is collected).  The minimum    *)
+(* fee and the maximum size are phase-1 checks of the UTXO rule: they are     *)
+(* preconditions whatever the flag says (only UTXOS branches on it).  The     *)
+(* flag is a dimension of the size slice (field p2, TRUE = is_valid is        *)
+(* false) and of the carriers on which the arithmetic points are replayed;    *)
+(* no verdict reads it (invariants FlagIrrelevant, FlagNeverHelps).           *)
+(*                                                                           *)
 (* The module is parametric in the word size W.  TLC checks it with          *)
 (* W = 2^3 on the full grid as states (thorough: also W = 2^4 as one         *)
 (* quantified theorem) and with W = 2^8 on a grid that contains every        *)
@@ -33,7 +42,9 @@ CONSTANTS
     Origs,      \* size slice: abstract lengths of the original encoding
     Pads,       \* size slice: |orig| - |canonical re-encoding|
     SzAs, SzBs, \* size slice: fee parameters (small: no overflow there)
+    P2Pads,     \* size slice: the paddings that are also built flagged is_valid = false (subset of Pads)
     WrapDefect, \* TRUE re-enables modular arithmetic in the model (TLC must refute it)
+    FlagDefect, \* TRUE lets a flagged transaction skip both rules in the model (TLC must refute it)
     FullW       \* word size of the full-grid theorem and of arithfull.ndjson (0 = none)
 
 Full == 0..(W - 1)            \* for configurations:  As <- Full
@@ -87,6 +98,9 @@ Mid    == {"alonzo", "babbage", "conway"}          \* [body, witnesses, is_valid
 Envs(era) == IF era \in Mid THEN {4} ELSE IF era = "dijkstra" THEN {3, 4} ELSE {3}
 Heads  == {"min", "wide", "indef"}                 \* 0x83/0x84, 0x98 n, 0x9f .. 0xff
 
+\* the size slice is evaluated in a word wide enough that it never overflows
+SzW == 1048576
+
 Sub(era, env) == IF era \in Mid /\ env = 4 THEN 1 ELSE 0
 FeeSize(era, env, orig) == orig - Sub(era, env)
 
@@ -94,6 +108,19 @@ FeeSize(era, env, orig) == orig - Sub(era, env)
 \* it is silent on a Dijkstra transaction that arrives with four elements
 \* (the repository deliberately subtracts the byte there): both are accepted
 Silent(era, env) == era = "dijkstra" /\ env = 4
+\* ... but both readings (|orig| and |orig| - 1) are readings of the statement:
+\* where they give the same verdict, that verdict is binding ("either" otherwise)
+BothReadings(era, env, orig, a, b, f) ==
+    LET lo == ExactVerdict(SzW, a, orig - 1, b, f)
+        hi == ExactVerdict(SzW, a, orig, b, f)
+    IN  IF ~Silent(era, env) THEN ExactVerdict(SzW, a, FeeSize(era, env, orig), b, f)
+        ELSE IF lo = hi THEN lo ELSE "either"
+
+\* the third element of the Alonzo..Conway envelope is is_valid: exactly these
+\* transactions can be flagged phase-2 invalid.  Shelley..Mary have no place for
+\* the flag, and a Dijkstra transaction cannot say is_valid = false (its envelope
+\* has three elements; the four-element form it is also read from must say true)
+CanFlag(era, env) == era \in Mid /\ env = 4
 
 \* the property is one-directional ("accepts only if fee >= a*size + b"): the
 \* implementation sizes an Alonzo..Conway transaction whose four-element envelope
@@ -117,32 +144,44 @@ FeesOf(a, s, b) ==
 
 ArithCase(a, s, b, f) == [kind |-> "arith", a |-> a, s |-> s, b |-> b, fee |-> f]
 
-SizeCase(era, env, hd, orig, pad, a, b, f, max) ==
+SizeCase(era, env, hd, orig, pad, a, b, f, max, p2) ==
     [kind |-> "size", era |-> era, env |-> env, hd |-> hd, orig |-> orig, pad |-> pad,
-     a |-> a, b |-> b, fee |-> f, max |-> max]
+     a |-> a, b |-> b, fee |-> f, max |-> max, p2 |-> p2]
 
+\* (a silent case also gets the fees around the minimum of its other reading)
 SzFees(era, env, orig, a, b) ==
-    LET mf == MinFee(a, FeeSize(era, env, orig), b) IN {x \in (Near(mf) \cup {mf - 2}) : x >= 0}
+    LET mf == MinFee(a, FeeSize(era, env, orig), b)
+        lo == IF Silent(era, env) THEN Near(MinFee(a, orig - 1, b)) ELSE {}
+    IN {x \in (Near(mf) \cup {mf - 2} \cup lo) : x >= 0}
 SzMaxs(orig, pad) ==
     {x \in {orig - pad - 1, orig - pad, orig - 1, orig, orig + 1} : x >= 0}
 
 \* the transaction and the fee parameters of a size case
-Shape(era, env, hd, orig, pad, a, b) ==
-    [era |-> era, env |-> env, hd |-> hd, orig |-> orig, pad |-> pad, a |-> a, b |-> b]
+Shape(era, env, hd, orig, pad, a, b, p2) ==
+    [era |-> era, env |-> env, hd |-> hd, orig |-> orig, pad |-> pad, a |-> a, b |-> b, p2 |-> p2]
 ShapeOK(t) ==
     /\ t.env \in Envs(t.era)
     /\ (t.hd # "min" => t.pad >= 1)                 \* a non-minimal head is one byte of padding
     /\ t.pad < t.orig
-Shapes == { t \in { Shape(era, env, hd, orig, pad, a, b) :
-                        era \in Eras, env \in {3, 4}, hd \in Heads, orig \in Origs, pad \in Pads,
-                        a \in SzAs, b \in SzBs } : ShapeOK(t) }
+    /\ (t.p2 => CanFlag(t.era, t.env) /\ t.pad \in P2Pads)
+Shapes == { t \in { Shape(q[1], q[2], q[3], q[4], q[5], q[6], q[7], q[8]) :
+                        q \in Eras \X {3, 4} \X Heads \X Origs \X Pads \X SzAs \X SzBs \X BOOLEAN } : ShapeOK(t) }
 \* the two rules are independent: the fee varies under a limit that fits, the
 \* limit varies under the fee that is exactly the minimum
 CasesOf(t) ==
     LET mf == MinFee(t.a, FeeSize(t.era, t.env, t.orig), t.b) IN
-           { SizeCase(t.era, t.env, t.hd, t.orig, t.pad, t.a, t.b, f, t.orig) :
+           { SizeCase(t.era, t.env, t.hd, t.orig, t.pad, t.a, t.b, f, t.orig, t.p2) :
                 f \in SzFees(t.era, t.env, t.orig, t.a, t.b) }
-      \cup { SizeCase(t.era, t.env, t.hd, t.orig, t.pad, t.a, t.b, mf, m) : m \in SzMaxs(t.orig, t.pad) }
+      \cup { SizeCase(t.era, t.env, t.hd, t.orig, t.pad, t.a, t.b, mf, m, t.p2) : m \in SzMaxs(t.orig, t.pad) }
+
+\* the transactions an arithmetic point (a, size, b, fee) is replayed on: every
+\* era and envelope whose fee size the statement fixes, unflagged and - where the
+\* envelope can say so - flagged; `sub` is what the driver adds to the point's
+\* size to get the length of the transaction it has to build
+Carrier(era, env, p2) == [era |-> era, env |-> env, p2 |-> p2]
+Carriers == { k \in { Carrier(q[1], q[2], q[3]) : q \in Eras \X {3, 4} \X BOOLEAN } :
+                /\ k.env \in Envs(k.era) /\ ~Silent(k.era, k.env)
+                /\ (k.p2 => CanFlag(k.era, k.env)) }
 
 VARIABLE c
 Init ==
@@ -222,12 +261,17 @@ FullGridTheorem(w) == \A a \in Word(w), s \in Word(w), b \in Word(w), f \in Word
     /\ POverflowSplit(w, a, s, b, f) /\ PMonotone(w, a, s, b, f) /\ PWrapCharacterised(w, a, s, b, f)
     /\ PHomogeneous(w, a, s, b, f)
 
-\* the size slice is evaluated in a word wide enough that it never overflows
-\* (so its verdicts do not depend on W)
-SzW == 1048576
+\* the size slice never overflows its word SzW (so its verdicts do not depend on W)
 SizeSliceSmall == IsSize => ~Ov(SzW, c.a, c.orig + 3, c.b + 3) /\ c.fee + 3 * c.a < SzW
 
 SzFeeVerdict(x, orig, fee) == ExactVerdict(SzW, x.a, FeeSize(x.era, x.env, orig), x.b, fee)
+
+\* the verdicts of a size case.  Neither reads x.p2; the defective design in
+\* which a rule returns early for a flagged transaction is kept for reference
+CaseFeeVerdict(x)  == IF FlagDefect /\ x.p2 THEN "accept" ELSE SzFeeVerdict(x, x.orig, x.fee)
+CaseSizeVerdict(x) == IF FlagDefect /\ x.p2 THEN "accept" ELSE SizeVerdict(x.orig, x.max)
+CaseBothReadings(x) ==
+    IF FlagDefect /\ x.p2 THEN "accept" ELSE BothReadings(x.era, x.env, x.orig, x.a, x.b, x.fee)
 
 \* the envelope byte: subtracted exactly for a four-element Alonzo..Conway envelope
 EnvelopeByte == IsSize =>
@@ -248,6 +292,36 @@ OriginalLength == IsSize /\ c.pad > 0 =>
     /\ SizeVerdict(c.orig, c.orig - c.pad) = "tooBig"
     /\ (c.a >= 1 => SzFeeVerdict(c, c.orig, MinFee(c.a, FeeSize(c.era, c.env, c.orig - c.pad), c.b)) = "tooSmall")
 
+\* the phase-2 flag never changes a verdict: a flagged transaction and the same
+\* transaction unflagged are judged alike by both rules (FlagDefect = TRUE is
+\* refuted here) ...
+Flip(x) == [x EXCEPT !.p2 = ~x.p2]
+FlagIrrelevant == IsSize /\ CanFlag(c.era, c.env) =>
+    /\ CaseFeeVerdict(Flip(c)) = CaseFeeVerdict(c)
+    /\ CaseSizeVerdict(Flip(c)) = CaseSizeVerdict(c)
+    /\ CaseBothReadings(Flip(c)) = CaseBothReadings(c)
+\* ... which is the statement itself read on a flagged transaction: it is accepted
+\* only with fee >= a*size + b and |orig| <= max (under either reading of a silent case)
+FlagNeverHelps == IsSize /\ c.p2 =>
+    /\ (~Silent(c.era, c.env) /\ CaseFeeVerdict(c) = "accept"
+            => c.fee >= MinFee(c.a, FeeSize(c.era, c.env, c.orig), c.b))
+    /\ (CaseBothReadings(c) = "accept" => c.fee >= MinFee(c.a, c.orig - 1, c.b))
+    /\ (CaseSizeVerdict(c) = "accept" => c.orig <= c.max)
+\* only an Alonzo..Conway transaction is ever flagged, and every flagged case has its
+\* unflagged twin in the case space (so the replay compares like with like)
+FlagPaired == IsSize /\ c.p2 =>
+    /\ CanFlag(c.era, c.env) /\ c.era \in Mid /\ ~Silent(c.era, c.env)
+    /\ LET t == Shape(c.era, c.env, c.hd, c.orig, c.pad, c.a, c.b, FALSE) IN ShapeOK(t) /\ Flip(c) \in CasesOf(t)
+\* where the two readings of a silent case agree the agreed verdict is the
+\* verdict of both; a case that is not silent has one reading
+ReadingsSound == IsSize =>
+    LET v == BothReadings(c.era, c.env, c.orig, c.a, c.b, c.fee) IN
+    /\ (~Silent(c.era, c.env) => v = SzFeeVerdict(c, c.orig, c.fee))
+    /\ (Silent(c.era, c.env) /\ v = "tooSmall" => c.fee < MinFee(c.a, c.orig - 1, c.b))
+    /\ (Silent(c.era, c.env) /\ v = "accept" => c.fee >= MinFee(c.a, c.orig, c.b))
+    /\ (Silent(c.era, c.env) /\ v = "either" =>
+            c.fee >= MinFee(c.a, c.orig - 1, c.b) /\ c.fee < MinFee(c.a, c.orig, c.b))
+
 ---------------------------------------------------------------------------
 ArithRowW(w, a, s, b, f) ==
     [w |-> w, a |-> a, s |-> s, b |-> b, fee |-> f,
@@ -256,21 +330,28 @@ ArithRowW(w, a, s, b, f) ==
 ArithRow(x) == ArithRowW(W, x.a, x.s, x.b, x.fee)
 
 SizeRow(x) == [era |-> x.era, env |-> x.env, hd |-> x.hd, orig |-> x.orig, pad |-> x.pad,
-               a |-> x.a, b |-> x.b, fee |-> x.fee, max |-> x.max,
+               a |-> x.a, b |-> x.b, fee |-> x.fee, max |-> x.max, p2 |-> x.p2,
                size |-> FeeSize(x.era, x.env, x.orig),
                minfee |-> MinFee(x.a, FeeSize(x.era, x.env, x.orig), x.b),
-               feeVerdict |-> SzFeeVerdict(x, x.orig, x.fee),
-               sizeVerdict |-> SizeVerdict(x.orig, x.max),
+               feeVerdict |-> CaseFeeVerdict(x),
+               sizeVerdict |-> CaseSizeVerdict(x),
                silent |-> Silent(x.era, x.env),
+               bothReadings |-> CaseBothReadings(x),
                tolerateOver |-> OverSizeTolerated(x.era, x.env, x.hd)]
 
 ClassRow(k) == [cls |-> k, verdict |-> ClassVerdict(k),
                 witnesses |-> Cardinality({x \in ArithSlice : Class(W, x.a, x.s, x.b, x.fee) = k})]
 
+CarrierRow(k) == [era |-> k.era, env |-> k.env, p2 |-> k.p2, sub |-> Sub(k.era, k.env)]
+
 Rows(S, F(_)) == LET q == SetToSeq(S) IN [i \in 1..Len(q) |-> F(q[i])]
 ASSUME ndJsonSerialize("arith.ndjson", Rows(ArithSlice, ArithRow))
 ASSUME ndJsonSerialize("size.ndjson", Rows(SizeSlice, SizeRow))
 ASSUME ndJsonSerialize("classes.ndjson", Rows(Classes, ClassRow))
+ASSUME ndJsonSerialize("carriers.ndjson", Rows(Carriers, CarrierRow))
+\* a flagged carrier is its unflagged twin with the flag set: same envelope, same size
+ASSUME \A k \in Carriers : k.p2 => CanFlag(k.era, k.env) /\ Carrier(k.era, k.env, FALSE) \in Carriers
+ASSUME P2Pads \subseteq Pads
 ASSUME FullW = 0 \/ FullGridTheorem(FullW)
 ASSUME FullW = 0 \/ ndJsonSerialize("arithfull.ndjson",
            Rows(Word(FullW) \X Word(FullW) \X Word(FullW) \X Word(FullW),
